@@ -72,7 +72,7 @@ OPS = [
     (r"\bmin\(", "max("), (r"\bmax\(", "min("),
     (r"\.borrowed\(\)", ".borrowed() /*m*/"),  # placeholder never used (kept for table alignment)
 ]
-SKIP = re.compile(r"^\s*(//|#\[|\*|/\*)|debug_assert|assert!|assert_eq!|assert_ne!|stat!|unreachable|panic!|eprintln|println|fmt::|write!|\bconst\b.*=|^\s*(pub )?(use|mod|type|trait|impl|struct|enum|fn)\b")
+SKIP = re.compile(r"vl::|verif_locks|oxidd_verif|^\s*(//|#\[|\*|/\*)|debug_assert|assert!|assert_eq!|assert_ne!|stat!|unreachable|panic!|eprintln|println|fmt::|write!|\bconst\b.*=|^\s*(pub )?(use|mod|type|trait|impl|struct|enum|fn)\b")
 
 
 def candidates(path):
